@@ -431,6 +431,20 @@ def fileScan (segs : List (Str × List Str)) : List Str → List (Str × List St
 def fileDeserialize (text : Str) : List (Str × Str) :=
   toDict (closeSegs (fileScan [] (splitLines text)))
 
+/-! ## The shape of a source function as `harness/props/c06_gen.py` reads it with `ast` -/
+
+/-- default argument values, string and integer literals, comparison and boolean operators, raised
+exception classes and called helpers of one function, each in source order -/
+structure Fp where
+  params : List (String × String)
+  strs : List String
+  ints : List Int
+  cmps : List String
+  bools : List String
+  raises : List String
+  calls : List String
+  deriving DecidableEq, Repr
+
 /-! ## Parsing all the way down (what `file[b][c]` returns after the lazy steps) -/
 
 abbrev Cols := List (Str × List Str)
